@@ -236,6 +236,17 @@ def _replay_steps(trans, world, snaps, qs, problems, hist, pol, folder):
                 quantizer.Quantizer(world["model"]).load_config_policy(pol[cur_pol[0]])
               if again != k["bytes"]:
                 problems.append(("save", "step %d %s: the saved recipe does not reproduce the saved model" % (step + 1, act[:-1])))
+      elif kind == "export":
+        r, name = act[2], act[3]
+        if r > len(kept):
+          return {"problems": [("harness", "bad result index")], "nq": 0, "hist": hist}
+        before = _folder_state(folder)
+        kept[r - 1]["obj"].export_model(os.path.join(folder, name + ".tflite"))
+        after = _folder_state(folder)
+        if set(after) != set(before) | {name + ".tflite"} or any(after[f] != before[f] for f in before if f != name + ".tflite"):
+          problems.append(("export", "step %d %s: files after export_model %s (only the model file may change)" % (step + 1, act[:-1], sorted(after))))
+        elif after[name + ".tflite"] != kept[r - 1]["bytes"]:
+          problems.append(("export", "step %d %s: exported model differs from the bytes quantize() returned" % (step + 1, act[:-1])))
     except RuntimeError as e:
       m = str(e)
       got = "raise:norecipe" if "without a quantization recipe" in m else "raise:nocal" if "QSVs) are required" in m else "raise:other:" + m[:80]
@@ -372,7 +383,7 @@ def main():
                 WritesStats="(" + " @@ ".join("%s :> %s" % (pair(k), tlc.tla_bool(WRITES.get(k, False))) for k in STATS_OF) + ")",
                 StatsOf="(" + " @@ ".join("%s :> %s" % (pair(k), tlc.tla_str_set(v)) for k, v in STATS_OF.items()) + ")",
                 Fixes=tlc.tla_str_set(fixes))
-  r = tlc.run("C14_api", "Api", consts, invariants=["ArgsUntouched", "OutputIsFunction", "SavedPairOfOneResult"], constraints=["EmitH"], view="View", workers=16, timeout=3600)
+  r = tlc.run("C14_api", "Api", consts, invariants=["ArgsUntouched", "OutputIsFunction", "SavedPairOfOneResult"], constraints=["EmitH"], properties=["SaveNeverOverwrites"], view="View", workers=16, timeout=3600)
   # longer histories on ONE Quantizer under the default policy (a failed call in the middle, then by-the-book calls)
   deep = dict(consts, NQ="1", Policies=tlc.tla_str_set(["P0"]), Datasets=tlc.tla_str_set(["D1", "D0"]), EmptyData=tlc.tla_str_set(["D0"]), MaxLen=str(maxlen + 3))
   rd = tlc.run("C14_api_deep", "Api", deep, invariants=["ArgsUntouched", "OutputIsFunction"], constraints=["EmitH"], view="View", workers=16, timeout=3600)
@@ -407,14 +418,25 @@ def main():
   deep_keys = sorted(k for k in trans_deep if k not in trans and after_fail(k))
   keys_deep = common.sample_keep(deep_keys, 300 if args.tier == "quick" else 12000, args.seed)
   # histories in which a result is saved (also twice under one name, and after the recipe / policy has changed since)
-  has_save = lambda h: any(a[0] == "save" for a in json.loads(h))
+  has_save = lambda h: any(a[0] in ("save", "export") for a in json.loads(h))
   save_keys = sorted(k for k in list(trans) + list(trans_deep) if has_save(k) and k not in keys and k not in keys_deep)
   # a refused save (the name exists) must leave the folder as it was: those histories are all kept
   refused_save = [k for k in save_keys if any(a[0] == "save" and a[-1] == "raise:exists" for a in json.loads(k))]
   keys_save = refused_save[:300 if args.tier == "quick" else 10**6] + common.sample_keep([k for k in save_keys if k not in set(refused_save)],
                                                                                      150 if args.tier == "quick" else 6000, args.seed)
+  # export_model() onto a file that holds ANOTHER result's model (after save() or an earlier export): all kept
+  def overwriting_export(h):
+    m = {}
+    for a in json.loads(h):
+      if a[0] in ("save", "export") and a[-1] == "ok":
+        if a[0] == "export" and m.get(a[3], a[2]) != a[2]:
+          return True
+        m[a[3]] = a[2]
+    return False
+  chosen_so_far = set(keys) | set(keys_deep) | set(keys_save)
+  keys_export = [k for k in sorted(list(trans) + list(trans_deep)) if k not in chosen_so_far and overwriting_export(k)][:250 if args.tier == "quick" else 10**6]
   trans.update(trans_deep)
-  keys = keys + keys_deep + keys_save
+  keys = keys + keys_deep + keys_save + keys_export
   items = [(trans[k], args.seed, ("bytearray", "bytes", "path", "bytes")[i % 4]) for i, k in enumerate(keys)]
   t0 = time.time()
   results = []
@@ -442,11 +464,11 @@ def main():
         chk.violation("%s (stateful model): %s" % (kind, msg), {"property": "C14", "history": out["hist"], "clause": kind, "model": "resource_variable_accumulator"})
   nproc = fresh_process_check(chk, args.seed, args.tier)
   chk.cov.update({
-      "states": r.distinct + rd.distinct, "transitions": r.generated + rd.generated, "histories_continuing_after_a_raise": len(keys_deep), "histories_with_save": len([k for k in keys if has_save(k)]), "traces_validated_against_impl": len(results), "transitions_emitted": len(trans),
+      "states": r.distinct + rd.distinct, "transitions": r.generated + rd.generated, "histories_continuing_after_a_raise": len(keys_deep), "histories_with_save": len([k for k in keys if has_save(k)]), "histories_with_overwriting_export": len([k for k in keys if overwriting_export(k)]), "traces_validated_against_impl": len(results), "transitions_emitted": len(trans),
       "quantize_calls_compared_with_fresh_quantizer": nq, "fresh_process_runs": nproc, "stateful_model_calibrations_compared_with_fresh_quantizer": nstate, "max_history": maxlen,
       "evaluations": len(results), "distinct_nontrivial": sum(1 for o in results if o["nq"] > 0),
       "rule": "history = sequence over {load R (3 recipes), load_config_policy (2 policies, process-global), calibrate(D, previous result), quantize(result), validate, "
-              "result.save(name)} on 2 Quantizers sharing <= 2 calibration results and <= 2 kept results (length <= max_history), and on 1 Quantizer (length <= max_history + 3); "
+              "result.save(name), result.export_model(name)} on 2 Quantizers sharing <= 2 calibration results and <= 2 kept results (length <= max_history), and on 1 Quantizer (length <= max_history + 3); "
               "every (reachable state incl. the outcome of the last failed call, action) transition emitted once by TLC; non-trivial = contains a quantize() that returns",
       "samples": [o["hist"] for o in results[:3]], "replay_wall_s": round(time.time() - t0, 1), "exhaustive": args.tier == "thorough",
   })
